@@ -13,11 +13,29 @@ pub struct SlotCfg {
     pub default_features: bool,
     /// extra dependencies lines for the slot crates (C12 feature crates)
     pub extra_deps: String,
+    /// cargo features of the slot crate itself (`ext`: rt's generators for the third-party types)
+    pub slot_features: Vec<String>,
+}
+
+impl SlotCfg {
+    /// ts-rs with every `*-impl` feature whose crate builds offline, the crates themselves with
+    /// their serde support as direct dependencies of the slot crates
+    pub fn ext() -> SlotCfg {
+        SlotCfg {
+            features: ["no-serde-warnings", "chrono-impl", "bigdecimal-impl", "uuid-impl", "bson-uuid-impl", "bytes-impl", "url-impl", "indexmap-impl", "ordered-float-impl", "heapless-impl", "semver-impl", "smol_str-impl", "serde-json-impl"]
+                .iter()
+                .map(|s| s.to_string())
+                .collect(),
+            default_features: true,
+            extra_deps: "chrono = { version = \"0.4\", features = [\"serde\"] }\nbigdecimal = { version = \"0.4\", features = [\"serde\"] }\nuuid = { version = \"1\", features = [\"serde\"] }\nbson = \"2\"\nbytes = { version = \"1\", features = [\"serde\"] }\nurl = { version = \"2\", features = [\"serde\"] }\nindexmap = { version = \"2\", features = [\"serde\"] }\nordered-float = { version = \"4\", features = [\"serde\"] }\nheapless = { version = \"0.8\", features = [\"serde\"] }\nsemver = { version = \"1\", features = [\"serde\"] }\nsmol_str = { version = \"0.3\", features = [\"serde\"] }\n".into(),
+            slot_features: vec!["ext".into()],
+        }
+    }
 }
 
 impl Default for SlotCfg {
     fn default() -> Self {
-        SlotCfg { features: vec!["no-serde-warnings".into()], default_features: true, extra_deps: String::new() }
+        SlotCfg { features: vec!["no-serde-warnings".into()], default_features: true, extra_deps: String::new(), slot_features: vec![] }
     }
 }
 
@@ -146,8 +164,8 @@ pub fn ensure_slots(ctx: &Ctx, slot: &SlotCfg) {
         write_if_changed(
             &s.join(&name).join("Cargo.toml"),
             &format!(
-                "[package]\nname = \"{name}\"\nversion = \"0.1.0\"\nedition = \"2021\"\n\n[dependencies]\nts-rs = {{ path = \"{repo}/ts-rs\", default-features = {}, features = [{feats}] }}\nserde = {{ version = \"1\", features = [\"derive\", \"rc\"] }}\nserde_json = \"1\"\narbitrary = \"1\"\n{}\n",
-                slot.default_features, slot.extra_deps
+                "[package]\nname = \"{name}\"\nversion = \"0.1.0\"\nedition = \"2021\"\n\n[features]\next = []\ndefault = [{}]\n\n[dependencies]\nts-rs = {{ path = \"{repo}/ts-rs\", default-features = {}, features = [{feats}] }}\nserde = {{ version = \"1\", features = [\"derive\", \"rc\"] }}\nserde_json = \"1\"\narbitrary = \"1\"\n{}\n",
+                slot.slot_features.iter().map(|f| format!("\"{f}\"")).collect::<Vec<_>>().join(", "), slot.default_features, slot.extra_deps
             ),
         );
         let main = s.join(&name).join("src/main.rs");
